@@ -29,7 +29,8 @@ META = {
                   'for the implementation traces the monitors judge), others_unaffected, tables_others_unaffected + broadcast_leaves_tables '
                   '(no action changes a table row of another connection; an updater changes none), tables_own (every table entry under '
                   'whatever key is an activation of that very connection still possibly in force), deactivate_exact (the string tests of '
-                  'unsubscribe = the matching deactivate), deadlock_free.  The model is tied to frappy/protocol/dispatcher.py and '
+                  'unsubscribe = the matching deactivate), only_exported (no update of a parameter / module that is not exported is ever '
+                  'delivered, whatever is activated or assigned), deadlock_free.  The model is tied to frappy/protocol/dispatcher.py and '
                   'modulebase.announceUpdate by replaying every explored schedule of the real code label by label (request arrival, lock '
                   'acquire/release, send, end) on the model and comparing the global observable trace, the final cache and the '
                   'dispatcher\'s tables (_active_connections, _subscriptions) after every completed operation; the Lean monitors of '
@@ -109,6 +110,7 @@ class M(Readable):
     ab = Parameter('y', FloatRange(), default=0.0, readonly=False)
     target = Parameter('t', FloatRange(), default=0.0, readonly=False)
     target_max = Parameter('tm', FloatRange(), default=0.0, readonly=False, export='target_max')
+    h = Parameter('not exported', FloatRange(), default=0.0, readonly=False, export=False)
 
     @Command()
     def go(self):
@@ -237,7 +239,7 @@ def run_case(case, policy):
     """run one case on the real code under the scheduler; returns (scheduler, observation dict)"""
     s = Scheduler(policy=policy, max_steps=5000)
     events, emitted, blocked, tabs, boundary = [], {}, [], [], {}
-    stat = {'bcast': 0, 'snap': 0, 'during': 0, 'after': 0, 'dropped': 0}
+    stat = {'bcast': 0, 'snap': 0, 'during': 0, 'after': 0, 'dropped': 0, 'hidden': 0}
     orig_block, orig_yield = s.block, s.yield_
 
     def yield_(label):
@@ -262,16 +264,19 @@ def run_case(case, policy):
         mcfg.update({a: {'update_unchanged': 'never'} for a in omit if a != '*'})
         if '*' in omit:
             mcfg['omit_unchanged_within'] = 1000
-        node = Node({mn: dict(mcfg, description=mn) for mn in case['mods']}, omit_unchanged_within=0)
+        modcfg = {mn: dict(mcfg, description=mn) for mn in case['mods']}
+        modcfg.update({mn: dict(mcfg, description=mn, export=False) for mn in case.get('hidden_mods', [])})
+        node = Node(modcfg, omit_unchanged_within=0)
         info = Info(node)
         omit_same = [[info.mid(mn), pobj.export] for mn in info.mods for pobj in node.modules[mn].parameters.values()
                      if pobj.export and pobj.omit_unchanged_within > 0]
         _name(node.dispatcher._lock, 'disp')
         _name(getattr(node.dispatcher, '_subscription_lock', None), 'sub')
-        for mn in info.mods:
-            mo = node.modules[mn]
+        for mn, mo in node.modules.items():
             _name(mo.updateLock, 'upd:' + mn)
             _name(mo.accessLock, 'acc:' + mn)
+        for mn in info.mods:
+            mo = node.modules[mn]
             for pobj in mo.parameters.values():
                 if pobj.export and pobj.readerror:      # `value` starts as "not initialized"
                     mo.announceUpdate(pobj.name, pobj.value)
@@ -304,7 +309,7 @@ def run_case(case, policy):
             return cb
         for mn in info.mods:
             mo = node.modules[mn]
-            for a in FLOATS:
+            for a in FLOATS:      # (a parameter that is not exported gets no callback here: nothing is announced for it)
                 mo.addCallback(a, mkcb(info.mid(mn), info.pid(mn, info.attr[mn][a]), mo.parameters[a]))
         conns = {}
         for cid in range(1, case['nconn'] + 1):
@@ -348,8 +353,10 @@ def run_case(case, policy):
                     events.append(['emitDone', u])
                     completed()
                     emitted[u] = False
-                elif e[0] == 'v':
+                elif e[0] == 'v' and a in info.attr.get(mn, {}):
                     stat['dropped'] += 1          # an unchanged value inside its omit window
+                elif a not in info.attr.get(mn, {}):
+                    stat['hidden'] += 1           # a parameter that is not exported (or of a module that is not)
             s.yield_(('end',))
 
         hs = sorted((int(c), scr) for c, scr in case['handlers'].items())
@@ -374,7 +381,7 @@ def run_case(case, policy):
     obs = {'events': events, 'cache': cache1, 'result': result, 'setup': setup, 'stat': stat, 'blocked': blocked, 'tabs': tabs,
            'sched': [[_tid(t), _label(l, info)] for t, l in s.trace],
            'handlers': [[cid, [info.req(r) for r in scr]] for cid, scr in hs],
-           'updaters': [[u, [[info.mid(mn), info.pid(mn, info.attr.get(mn, {}).get(a)), e] for mn, a, e in scr]] for u, scr in us],
+           'updaters': [[u, [[info.mid(mn), info.attr.get(mn, {}).get(a, '#' + a), e] for mn, a, e in scr]] for u, scr in us],
            'choices': [c for _, c, _ in s.choices], 'preempt': sum(1 for _, c, d in s.choices if c != d)}
     return s, obs
 
@@ -415,12 +422,14 @@ def assess(obs, model, judge, model_ok=True):
         viols.append(('C08:deadlock', f'all threads blocked (deadlock); last lock waits: {obs["blocked"][-3:]}'))
     if 'driver_error' in judge:
         return viols, {'model': {'judge': judge}, 'impl': ev[:8]}
-    for clause in ('silent', 'snapshot', 'noloss'):
+    for clause in ('silent', 'snapshot', 'noloss', 'exported'):
         i = judge[clause]
         if i is None:
             continue
         bad = ev[i]
-        if clause == 'silent':
+        if clause == 'exported':
+            shape = 'update-of-unexported-parameter'
+        elif clause == 'silent':
             prev = [e for e in ev[:i] if e[0] == 'reply' and e[1] == bad[1]]
             kind = 'never-active'
             if prev:
@@ -475,13 +484,15 @@ def judge_case(ctx, case):
 # ----------------------------------------------------------------------------------------
 # scenarios
 # ----------------------------------------------------------------------------------------
-def scn(kind, mods, handlers, updaters, broken_logging=False, omit=None):
+def scn(kind, mods, handlers, updaters, broken_logging=False, omit=None, hidden_mods=None):
     case = {'mods': mods, 'nconn': len(handlers), 'handlers': {str(i + 1): h for i, h in enumerate(handlers)},
             'updaters': {str(i + 1): u for i, u in enumerate(updaters)}}
     if broken_logging:
         case['broken_logging'] = True
     if omit:
         case['omit'] = omit
+    if hidden_mods:
+        case['hidden_mods'] = hidden_mods
     return kind, case
 
 
@@ -536,6 +547,10 @@ CATALOGUE = [
     scn('omit-unchanged-initial', ['T'], [[[A, 'T']]], [[['T', 'a', V(0)], ['T', 'ab', V(0)], ['T', 'a', V(3)]]], omit=['a']),
     scn('omit-unchanged-error-between', ['T'], [[[A, None]]], [[['T', 'value', V(1)], ['T', 'value', E(0)], ['T', 'value', V(1)]]],
         omit=['*']),
+    # ---- parameters / modules that are not exported: assigned to, never delivered, cannot be activated
+    scn('unexported-parameter', ['T'], [[[A, None], [A, 'T:h'], [D, None]]], [[['T', 'h', V(4)], ['T', 'value', V(5)], ['T', 'h', E(0)]]]),
+    scn('unexported-module', ['T'], [[[A, None], [A, 'H'], [A, 'H:value']], [[A, 'T'], [D, 'H']]],
+        [[['H', 'value', V(3)], ['T', 'value', V(4)], ['H', 'a', E(0)]]], hidden_mods=['H']),
     scn('omit-unchanged-two-updaters', ['T'], [[[A, 'T:_a']], [[A, 'T'], [D, 'T']]], [[['T', 'a', V(2)], ['T', 'a', V(2)]], [['T', 'a', V(2)]]],
         omit=['a', 'value']),
 ]
@@ -571,14 +586,17 @@ def gen_case(rng):
         out = []
         for _ in range(rng.randint(1, 3)):
             e = E(rng.randrange(len(ERRS))) if rng.random() < 0.25 else V(rng.randint(1, 9))
-            out.append([rng.choice(mods), rng.choice(FLOATS), e])
+            out.append([rng.choice(mods + hidden), rng.choice(FLOATS + ['h'] if hidden else FLOATS), e])
             if rng.random() < (0.5 if e[0] == 'e' or omit else 0.1):
                 out.append(list(out[-1]))      # the same error / the same value again
         return out[:3]
     omit = gen_omit(rng)
+    hidden = ['H'] if rng.random() < 0.2 else []
+    if hidden:
+        specs += ['H', 'H:value', 'T:h']
     handlers = [script() for _ in range(rng.choice([1, 1, 2, 2, 3]))]
     updaters = [assignments() for _ in range(rng.choice([1, 1, 2]))]
-    return scn('generated', mods, handlers, updaters, rng.random() < 0.15, omit)
+    return scn('generated', mods, handlers, updaters, rng.random() < 0.15, omit, hidden)
 
 
 # ----------------------------------------------------------------------------------------
@@ -649,13 +667,15 @@ def gen_history(rng):
     def assignments():
         out = []
         for _ in range(rng.randint(3, 8)):
-            mn, a = (mods[0], rng.choice(hot)) if rng.random() < 0.7 else (rng.choice(mods), rng.choice(FLOATS))
+            mn, a = (mods[0], rng.choice(hot)) if rng.random() < 0.7 else \
+                (rng.choice(mods + hidden), rng.choice(FLOATS + ['h'] if hidden else FLOATS))
             out.append([mn, a, E(rng.randrange(len(ERRS))) if rng.random() < 0.15 else V(rng.randint(1, 3 if omit else 9))])
         return out
     omit = gen_omit(rng)
+    hidden = ['H'] if rng.random() < 0.2 else []
     handlers = [script() for _ in range(rng.choice([2, 2, 3]))]
     updaters = [assignments() for _ in range(rng.choice([1, 1, 2]))]
-    kind, case = scn('history', mods, handlers, updaters, rng.random() < 0.1, omit)
+    kind, case = scn('history', mods, handlers, updaters, rng.random() < 0.1, omit, hidden)
     order = [n for n, scr in [('h%d' % (i + 1), h) for i, h in enumerate(handlers)]
              + [('u%d' % (i + 1), u) for i, u in enumerate(updaters)] for _ in scr]
     rng.shuffle(order)
@@ -750,6 +770,8 @@ def run(ctx):
             res.count('never-blocked')
         if case.get('omit'):
             res.count('omit-window.' + ('unchanged-value-dropped' if obs['stat'].get('dropped') else 'nothing-dropped'))
+        if obs['stat'].get('hidden'):
+            res.count('assignment-to-unexported-parameter')
         if obs['preempt'] and st['bcast'] and st['snap']:
             res.nontriv(case)
             if len(res.samples) < 4 and len(obs['events']) < 16 and st['during'] and kind not in sampled:
